@@ -93,6 +93,21 @@ class Gen:
     if s.funcs and rng.random() < 0.3:
       cands = cands + [(f'{fn}()', fw, False) for fn, fw in s.funcs]
     e, ew, _ = rng.choice(cands)
+    if getattr(s, 'idx', None) and rng.random() < 0.25:
+      # a read through an index that is itself a signal computed in this cycle
+      plain = [a for a in s.avail if a[2] is True and re.fullmatch(r's(\.[A-Za-z_0-9]+(\[\d+\])?)+', a[0])]
+      def ix(bits):
+        c = [a for a in plain if a[1] >= bits]
+        if not c: return None
+        a = rng.choice(c); lo = rng.randrange(0, a[1] - bits + 1)
+        return a[0] if a[1] == bits else f'{a[0]}[{lo}:{lo+bits}]'
+      kind = rng.choice(s.idx)
+      if kind == 'il':
+        i_ = ix(2)
+        if i_: e, ew = rng.choice([(f'(s.il[ {i_} ].a)', 8), (f'(s.il[ {i_} ].b)', 4), (f'(s.il[ {i_} ].a[2:7])', 5)])
+      else:
+        r_, c_ = ix(1), ix(1)
+        if r_ and c_: e, ew = rng.choice([(f'(s.tb[ {r_} ][ {c_} ])', 8), (f'(s.tb[ {r_} ][ {c_} ][1:4])', 3)])
     def fit(e, ew):
       if ew == w: return e
       if ew > w:
@@ -126,6 +141,17 @@ class Gen:
     for _ in range(nin):
       typ = ('struct', rng.choice(['Pt', 'Outer'])) if rng.random() < 0.25 else ('bits', s.w())
       n = s.new_sig('in', typ); s.inputs.append((n, typ)); s.add_avail(n, typ)
+    # lists of input ports read through SIGNAL-valued indices, with the name continuing after the index
+    s.idx = []
+    if rng.random() < 0.3:
+      s.lines.append('s.il = [ InPort( Pt ) for _ in range(4) ]')
+      for i in range(4): s.inputs.append((f'il[{i}]', ('struct', 'Pt')))
+      s.idx.append('il'); s.features.add('signal-index:list-of-struct')
+    if rng.random() < 0.3:
+      s.lines.append('s.tb = [ [ InPort( 8 ) for _ in range(2) ] for _ in range(2) ]')
+      for i in range(2):
+        for j in range(2): s.inputs.append((f'tb[{i}][{j}]', ('bits', 8)))
+      s.idx.append('tb'); s.features.add('signal-index:2d-list')
     # registers (state): readable from the start
     nreg = rng.randrange(0, 4) if s.with_ff else 0
     regs = []
@@ -282,15 +308,16 @@ class Gen:
         s.lines += ['@update_ff', f'def f{fi}():', f'  for i in range({k}):', f'    if {c[0]}[i % {c[1]}]:', f'      s.rl[i] <<= s.rl[{k-1} - i]', '    else:', f'      s.rl[i] <<= {s.src_expr(lw)}']; fi += 1
         s.features.add('ff-loop-with-branch')
     if fi: s.features.add('ff')
-    s.wrap = rng.random() < 0.3
+    s.wrap = rng.random() < 0.3 and not s.idx
     if s.wrap: s.features.add('wrapped-one-level-down')
     return s
 
   def source(s):
     body = '\n'.join('    ' + l for l in s.lines)
     sig = 's, p=0' if s.param else 's'
+    LT = '  def line_trace( s ):\n    return ""\n'
     if not getattr(s, 'wrap', False):
-      return STRUCT_SRC + f'\nclass {s.name}( Component ):\n  def construct( {sig} ):\n{body}\n'
+      return STRUCT_SRC + f'\nclass {s.name}( Component ):\n  def construct( {sig} ):\n{body}\n' + LT
     # the generated component sits one level below the top: exercises per-component grouping code paths
     inner = f'\nclass {s.name}_inner( Component ):\n  def construct( {sig} ):\n{body}\n'
     w = ['s.d = %s_inner(%s)' % (s.name, ' p ' if s.param else '')]
@@ -298,7 +325,7 @@ class Gen:
       t = typ[1] if typ[0] == 'struct' else str(typ[1])
       w += [f's.{n} = InPort( {t} )', f'connect( s.{n}, s.d.{n} )']
     wb = '\n'.join('    ' + l for l in w)
-    return STRUCT_SRC + inner + f'\nclass {s.name}( Component ):\n  def construct( {sig} ):\n{wb}\n'
+    return STRUCT_SRC + inner + f'\nclass {s.name}( Component ):\n  def construct( {sig} ):\n{wb}\n' + LT
 
 _modcount = [0]
 def load_source(ctx, src, name):
@@ -325,7 +352,7 @@ def kahn_random(V, E, rng):
       if ind[v] == 0: ready.append(v)
   return order if len(order) == len(V) else None
 
-def build(cls, sched, rng=None, ff_perm=None, seed=0, prefer=None):
+def build(cls, sched, rng=None, ff_perm=None, seed=0, prefer=None, trace=False):
   """elaborate + apply a scheduling pass group. Returns top. Raises whatever the passes raise.
   prefer=(b, a) (indices into Footprints(top).comb, only with sched='forced'): the linear extension of pymtl3's
   constraint graph that runs block b and its ancestors first and block a afterwards (None if the graph orders a before b)"""
@@ -365,18 +392,18 @@ def build(cls, sched, rng=None, ff_perm=None, seed=0, prefer=None):
     if ff_perm is not None:
       ffs = sorted(top._sched.schedule_ff, key=lambda b: (b.__name__, repr(top.get_update_block_host_component(b))))
       top._sched.schedule_ff = [ffs[i] for i in ff_perm]
-    PrepareSimPass(print_line_trace=False)(top)
+    PrepareSimPass(print_line_trace=trace)(top)
   elif sched == 'dynamic':
     if ff_perm is None:
-      top.apply(DefaultPassGroup())
+      top.apply(DefaultPassGroup(linetrace=trace))
     else:
       GenDAGPass()(top); WrapGreenletPass()(top); DynamicSchedulePass()(top)
       ffs = sorted(top._sched.schedule_ff, key=lambda b: (b.__name__, repr(top.get_update_block_host_component(b))))
       top._sched.schedule_ff = [ffs[i] for i in ff_perm]
-      PrepareSimPass(print_line_trace=False)(top)
-  elif sched == 'unroll':    UnrollSim(print_line_trace=False)(top)
-  elif sched == 'heuristic': HeuTopoUnrollSim(print_line_trace=False)(top)
-  elif sched == 'mamba':     Mamba2020(print_line_trace=False)(top)
+      PrepareSimPass(print_line_trace=trace)(top)
+  elif sched == 'unroll':    UnrollSim(print_line_trace=trace)(top)
+  elif sched == 'heuristic': HeuTopoUnrollSim(print_line_trace=trace)(top)
+  elif sched == 'mamba':     Mamba2020(print_line_trace=trace)(top)
   else: raise ValueError(sched)
   return top
 
@@ -395,7 +422,7 @@ def snapshot(top):
 
 def set_input(top, name, value):
   """top-level input ports are assigned with @= on the live Bits/struct object"""
-  obj = getattr(top, name)
+  obj = getattr(top, name) if name.isidentifier() else eval('top.' + name, {'top': top})
   if hasattr(obj, 'from_bits') and not hasattr(obj, '_uint'):
     T = type(obj); obj @= T.from_bits(__import__('pymtl3').Bits(T.nbits, value))
   else:
@@ -483,6 +510,38 @@ class Footprints:
     ex = coq_list([f'({a}%nat, {b}%nat)' for a, b in expl])
     return f'(mkDesign {len(blocks)}%nat {fun(s.reads)} {fun(s.writes)} {ex})'
 
+def dag_case(fp, expl=None):
+  """Coq term (design, G, paths) for Sched.DagAccept.dag_ok: G = pymtl3's constraint edges between the comb blocks,
+  paths = for every pair the footprints require (same rule as Accept.Eb, recomputed here only to know which paths to
+  look for - Coq decides what is required) one path of G found by BFS. A pair without a path gets none, so the
+  acceptor rejects the graph."""
+  expl = fp.expl if expl is None else expl
+  n = len(fp.comb); X = set(expl)
+  succ = {a: [] for a in range(n)}
+  for (a, b) in fp.edges: succ[a].append(b)
+  paths = []; missing = []
+  for a in range(n):
+    need = []
+    for b in range(n):
+      if a == b: continue
+      ov = any(r1 == r2 and l1 < h2 and l2 < h1 for (r1, l1, h1) in fp.writes[fp.comb[a]] for (r2, l2, h2) in fp.reads[fp.comb[b]])
+      if (ov and (b, a) not in X) or (a, b) in X: need.append(b)
+    if not need: continue
+    prev = {a: None}; todo = [a]
+    while todo:
+      u = todo.pop(0)
+      for v in succ[u]:
+        if v not in prev and v != u: prev[v] = u; todo.append(v)
+    for b in need:
+      if b in prev:
+        pth = [b]
+        while prev[pth[-1]] is not None: pth.append(prev[pth[-1]])
+        paths.append(pth[::-1])
+      else: missing.append((a, b))
+  G = coq_list([f'({a}%nat, {b}%nat)' for a, b in fp.edges])
+  P = coq_list([coq_list([f'{x}%nat' for x in pth]) for pth in paths])
+  return f'({fp.design_term(expl=expl)}, {G}, {P})', missing
+
 # ------------------------------------------------------------------ execution-order tracing
 class OrderTracer:
   """records which update blocks / net blocks run, in order, while fn() executes"""
@@ -565,6 +624,19 @@ def simulate(top, g, seed, cycles, on_eval=None, on_tick=None):
     top.sim_tick()
     tr.append(snapshot(top))
     if on_tick: on_tick(c)
+  return tr
+
+def simulate_ticks(top, g, seed, cycles):
+  """the other driving protocol: write the inputs and call sim_tick() only (no explicit sim_eval_combinational);
+  line traces, if enabled, are swallowed. Returns the snapshots after each tick."""
+  import io, contextlib
+  r = random.Random(seed); tr = []
+  with contextlib.redirect_stdout(io.StringIO()):
+    top.sim_reset()
+    for c in range(cycles):
+      drive_inputs(top, g, r)
+      top.sim_tick()
+      tr.append(snapshot(top))
   return tr
 
 def first_diff(a, b):
